@@ -103,6 +103,11 @@ pub struct Counters {
 pub struct World {
     pub active: bool,
     pub disk: BTreeMap<String, Vec<u8>>,
+    /// paths that are FIFOs / pipes (`mkfifo`, `/dev/stdout`, `/dev/fd/N`): path -> bytes already
+    /// consumed by readers. Everything ever written stays in `disk[path]` (for the oracle); a
+    /// reader gets the bytes after the consumed offset, whichever fd it uses; not seekable, not
+    /// truncatable, `fsync` fails with EINVAL, `stat` says S_IFIFO with size 0
+    pub pipes: BTreeMap<String, usize>,
     /// modification time of every simulated file (seconds; a logical tick per modification)
     pub mtimes: BTreeMap<String, u64>,
     pub tick: u64,
@@ -126,6 +131,7 @@ impl World {
         World {
             active: false,
             disk: BTreeMap::new(),
+            pipes: BTreeMap::new(),
             mtimes: BTreeMap::new(),
             tick: 1_700_000_000,
             fds: BTreeMap::new(),
@@ -187,6 +193,7 @@ pub fn reset_world() {
     let mut w = world();
     w.active = true;
     w.disk.clear();
+    w.pipes.clear();
     w.mtimes.clear();
     w.plan = Plan::default();
     w.n_open = 0;
@@ -241,7 +248,26 @@ pub fn disk_put_keep_mtime(path: &str, data: Vec<u8>) {
 }
 
 pub fn disk_remove(path: &str) {
-    world().disk.remove(path);
+    let mut w = world();
+    w.disk.remove(path);
+    w.pipes.remove(path);
+}
+
+/// Make the path a FIFO (empty, nothing consumed yet).
+pub fn disk_make_pipe(path: &str) {
+    let mut w = world();
+    w.disk.insert(path.to_string(), Vec::new());
+    w.pipes.insert(path.to_string(), 0);
+    w.touch(path);
+}
+
+fn is_pipe_path(p: &str) -> bool {
+    world().pipes.contains_key(p)
+}
+
+fn is_pipe_fd(fd: i32) -> bool {
+    let w = world();
+    w.fds.get(&fd).map(|f| w.pipes.contains_key(&f.path)).unwrap_or(false)
 }
 
 pub fn take_log() -> Vec<Ev> {
@@ -334,7 +360,7 @@ unsafe fn sim_open(path: &str, flags: i32) -> i32 {
         set_errno(libc::EEXIST);
         return -1;
     }
-    if flags & libc::O_TRUNC != 0 && acc != libc::O_RDONLY {
+    if flags & libc::O_TRUNC != 0 && acc != libc::O_RDONLY && !w.pipes.contains_key(path) {
         w.disk.get_mut(path).unwrap().clear();
         w.touch(path);
     }
@@ -506,14 +532,41 @@ pub fn break_stdio(errno: Option<i32>) {
     let _ = STDIO_BROKEN.try_with(|c| c.set(errno));
 }
 
+thread_local! {
+    static HARNESS_PRINTING: std::cell::Cell<bool> = const { std::cell::Cell::new(false) };
+}
+
+/// The harness's own protocol output (BEGIN/END/WORLD/STAGE lines) from a thread that is
+/// currently a party: neither broken nor counted as output of the code under test.
+pub fn harness_print<R>(f: impl FnOnce() -> R) -> R {
+    let _ = HARNESS_PRINTING.try_with(|c| c.set(true));
+    let r = f();
+    let _ = HARNESS_PRINTING.try_with(|c| c.set(false));
+    r
+}
+
 #[no_mangle]
 pub unsafe extern "C" fn write(fd: i32, buf: *const libc::c_void, count: usize) -> isize {
     CALLS_WRITE.fetch_add(1, Ordering::Relaxed);
-    if fd == 1 || fd == 2 {
+    if (fd == 1 || fd == 2) && !HARNESS_PRINTING.try_with(|c| c.get()).unwrap_or(false) {
         if let Ok(Some(e)) = STDIO_BROKEN.try_with(|c| c.get()) {
             STDIO_WRITES_BY_CODE_UNDER_TEST.fetch_add(1, Ordering::Relaxed);
             set_errno(e);
             return -1;
+        }
+        // discovery, like environment variables: a party that prints has "stdio:stdout" /
+        // "stdio:stderr" recorded; for a party with that entry on its flip list the write fails
+        // with EPIPE (the process's log pipe lost its reader)
+        if let Some(flip) = PARTY_ENV.try_with(|e| e.try_borrow().ok().and_then(|b| b.clone())).ok().flatten() {
+            let name = if fd == 1 { "stdio:stdout" } else { "stdio:stderr" };
+            if let Ok(mut q) = ENV_QUERIED.lock() {
+                q.insert(name.to_string());
+            }
+            if flip.iter().any(|f| f == name) {
+                STDIO_WRITES_BY_CODE_UNDER_TEST.fetch_add(1, Ordering::Relaxed);
+                set_errno(libc::EPIPE);
+                return -1;
+            }
         }
     }
     if !(fd >= 0 && (fd as usize) < MAX_FD && SIM_FD[fd as usize].load(Ordering::SeqCst)) {
@@ -579,8 +632,9 @@ pub unsafe extern "C" fn write(fd: i32, buf: *const libc::c_void, count: usize) 
         let f = w.fds.get(&fd).unwrap();
         (f.path.clone(), f.off, f.append)
     };
+    let is_pipe = w.pipes.contains_key(&path);
     let img = w.disk.entry(path).or_default();
-    if append {
+    if append || is_pipe {
         off = img.len();
     }
     if img.len() < off + n {
@@ -624,6 +678,8 @@ pub unsafe extern "C" fn read(fd: i32, buf: *mut libc::c_void, count: usize) -> 
         let f = w.fds.get(&fd).unwrap();
         (f.path.clone(), f.off)
     };
+    let pipe_consumed = w.pipes.get(&path).copied();
+    let off = pipe_consumed.unwrap_or(off);
     let avail = w.disk.get(&path).map(|i| i.len().saturating_sub(off)).unwrap_or(0);
     match w.plan.read.get(&idx).copied() {
         Some(Act::Short(k)) => {
@@ -654,6 +710,9 @@ pub unsafe extern "C" fn read(fd: i32, buf: *mut libc::c_void, count: usize) -> 
         std::ptr::copy_nonoverlapping(img[off..off + n].as_ptr(), buf as *mut u8, n);
     }
     w.fds.get_mut(&fd).unwrap().off = off + n;
+    if pipe_consumed.is_some() {
+        w.pipes.insert(path.clone(), off + n);
+    }
     w.counters.bytes_read += n as u64;
     w.ev(Ev { sys: b'r', idx, req: count as u64, act: act_code, ret: n as i64 });
     n as isize
@@ -760,6 +819,10 @@ pub unsafe extern "C" fn statx(dirfd: i32, path: *const libc::c_char, flags: i32
     if empty && is_sim_fd(dirfd) {
         if let Some(len) = sim_fd_len(dirfd) {
             fill_statx(buf, len, sim_mtime_of_fd(dirfd));
+            if is_pipe_fd(dirfd) {
+                (*buf).stx_mode = (libc::S_IFIFO | 0o644) as u16;
+                (*buf).stx_size = 0;
+            }
             return 0;
         }
     }
@@ -767,6 +830,10 @@ pub unsafe extern "C" fn statx(dirfd: i32, path: *const libc::c_char, flags: i32
         return match sim_path_len(&p) {
             Some(len) => {
                 fill_statx(buf, len, sim_mtime_of_path(&p));
+                if is_pipe_path(&p) {
+                    (*buf).stx_mode = (libc::S_IFIFO | 0o644) as u16;
+                    (*buf).stx_size = 0;
+                }
                 0
             }
             None => {
@@ -805,6 +872,10 @@ pub unsafe extern "C" fn fstat(fd: i32, buf: *mut libc::stat) -> i32 {
     if is_sim_fd(fd) {
         if let Some(len) = sim_fd_len(fd) {
             fill_stat(buf, len, sim_mtime_of_fd(fd));
+            if is_pipe_fd(fd) {
+                (*buf).st_mode = libc::S_IFIFO | 0o644;
+                (*buf).st_size = 0;
+            }
             return 0;
         }
     }
@@ -822,6 +893,10 @@ unsafe fn stat_path(path: *const libc::c_char, buf: *mut libc::stat, nofollow: b
         return match sim_path_len(&p) {
             Some(len) => {
                 fill_stat(buf, len, sim_mtime_of_path(&p));
+                if is_pipe_path(&p) {
+                    (*buf).st_mode = libc::S_IFIFO | 0o644;
+                    (*buf).st_size = 0;
+                }
                 0
             }
             None => {
@@ -865,6 +940,11 @@ unsafe fn sim_lseek(fd: i32, off: i64, whence: i32) -> i64 {
         set_errno(libc::EBADF);
         return -1;
     };
+    if w.pipes.contains_key(&path) {
+        drop(w);
+        set_errno(libc::ESPIPE);
+        return -1;
+    }
     let len = w.disk.get(&path).map(|i| i.len()).unwrap_or(0) as i64;
     let cur = w.fds.get(&fd).map(|f| f.off).unwrap_or(0) as i64;
     let new = match whence {
@@ -895,8 +975,14 @@ pub unsafe extern "C" fn lseek64(fd: i32, off: i64, whence: i32) -> i64 {
     lseek(fd, off, whence)
 }
 
-unsafe fn sim_sync(_fd: i32) -> i32 {
+unsafe fn sim_sync(fd: i32) -> i32 {
     crate::sched::point();
+    if is_pipe_fd(fd) {
+        // fsync(2): "EINVAL: fd is bound to a special file (e.g., a pipe, FIFO, or socket) which does not support synchronization"
+        world().fire("fsync_on_pipe_einval");
+        set_errno(libc::EINVAL);
+        return -1;
+    }
     let mut w = world();
     let idx = w.n_sync;
     w.n_sync += 1;
@@ -933,7 +1019,7 @@ unsafe fn sim_truncate(fd: i32, len: i64) -> i32 {
         set_errno(libc::EBADF);
         return -1;
     };
-    if len < 0 {
+    if len < 0 || w.pipes.contains_key(&path) {
         drop(w);
         set_errno(libc::EINVAL);
         return -1;
